@@ -773,3 +773,13 @@ v("c08-trailing-triple-quotes-from-raw-value", "C08", "BLOCK-PRINT-TABLE", L + "
   "    has_trailing_triple_quotes = escaped_value.endswith('\\\\\"\"\"')\n", "    has_trailing_triple_quotes = value.endswith('\"\"\"')\n")
 v("c08-trailing-backslash-parity", "C08", "BLOCK-PRINT-TABLE", L + "block_string.py",
   "    has_trailing_slash = value.endswith(\"\\\\\")\n", "    has_trailing_slash = (len(value) - len(value.rstrip(\"\\\\\"))) % 2 == 1\n")
+v("c08-int-literal-respelled", "C08", "LEAF-VERBATIM", L + "printer.py",
+  "    def leave_int_value(node: PrintedNode, *_args: Any) -> str:\n        return node.value\n", "    def leave_int_value(node: PrintedNode, *_args: Any) -> str:\n        return str(int(node.value))\n")
+v("c08-type-definition-helper-wrong-order", "C08", "ORDER-AGREE", L + "printer.py",
+  "                \"type\",\n                node.name,\n                wrap(\"implements \", join(node.interfaces, \" & \")),\n                join(node.directives, \" \"),\n                block(node.fields),\n",
+  "                \"type\",\n                node.name,\n                join(node.directives, \" \"),\n                wrap(\"implements \", join(node.interfaces, \" & \")),\n                block(node.fields),\n")
+v("c08-scalar-definition-through-helper", "C08", "PRINTER-COVERAGE", L + "printer.py",
+  "    def leave_scalar_type_definition(node: PrintedNode, *_args: Any) -> str:\n        return wrap(\"\", node.description, \"\\n\") + join(\n            (\n                \"scalar\",\n                node.name,\n                join(node.directives, \" \"),\n            ),\n            \" \",\n        )\n",
+  "    def leave_scalar_type_definition(node: PrintedNode, *_args: Any) -> str:\n        return _definition(\"scalar\", node)\n",
+  expect="silent", extra_edits=[{"file": L + "printer.py", "old": "def block(strings: Strings | None) -> str:",
+  "new": "def _definition(keyword: str, node: PrintedNode, *parts: str) -> str:\n    return wrap(\"\", node.description, \"\\n\") + join(\n        (keyword, node.name, join(node.directives, \" \"), *parts), \" \"\n    )\n\n\ndef block(strings: Strings | None) -> str:"}])
